@@ -2,7 +2,7 @@ HOOKS = {
     'guard': '--cfg vsb_verif',
     'enable': "RUSTFLAGS='--cfg vsb_verif' (set by bin/build-harness for the harness and the vsb binary)",
     'baseline_off_cmd': 'cd /repo && cargo test --workspace --no-fail-fast --offline',
-    'source_commits': [],
+    'source_commits': ['26876a3'],
     'add_only': True,
 }
 NOTES = ('Every claimed property: Lean 4 theorems about a hand-written executable model (lean/VsbModel), '
@@ -22,5 +22,9 @@ CLAIMED = {
     'C06': {
         'text': 'Lean theorems about the sync-plan model for arbitrary group lists on both sides, any max >= 1, any incoming ok flag and any failure oracle: target_window (a group is kept iff fewer than max non-empty groups are newer), uploads_only_missing (nothing present is re-uploaded; uploads stay in the window), uploads_complete (error-free run uploads every missing local backup of the window), deletes_old_whole (only listed cloud groups outside and strictly older than the window, only after a run with no error at all), wiped_guard_blocks_delete. Tied to uploading/sync.rs by running the real sync_backups with a recording mock provider against the compiled model, plus an independent declarative oracle incl. convergence of a second run.',
         'note': TRUST + 'names are fixed-width digit strings so byte order = numeric order; listings contain each name once; the convergence of a second run is checked by the oracle on every generated state, not yet proved as a theorem.',
+    },
+    'C07': {
+        'text': 'Lean theorems about create_backup\'s group choice and gc_groups for every listing and all limits >= 1: append_iff_room, new_group_named_today, reuse_is_last, group_bounded, gc_exact, gc_bound, gc_conservative, gc_keeps_newest, and at storage level failed_run_deletes_nothing / done_run_deletes_plan (a run that does not publish removes no root entry; a completed run deletes exactly gcPlan of what the storage lists after publication). Tied to storage/mod.rs, backup_group.rs, backuping/mod.rs by histories of real vsb backup runs under a faked clock on junk-seeded storages, compared step by step with backupRun of the compiled model, plus an independent oracle for the bounds.',
+        'note': TRUST + 'chrono formatting of the faked clock (clock-derived names are model inputs); ASCII digits in names; kernel rename/mkdir semantics as observed; that the published group is the newest listed one under a monotone clock is checked by the oracle on every run, not yet proved at storage level.',
     },
 }
